@@ -1002,7 +1002,16 @@ func callBuiltin(caller *frame, callpos token.Pos, fn *ssa.Builtin, args []value
 			return append(args[0].([]value), []value(s)...)
 		}
 		// append([]T, ...[]T) []T
-		return append(args[0].([]value), args[1].([]value)...)
+		// (aggregate elements are values: copy them, never alias the source backing array)
+		src := args[1].([]value)
+		if len(src) > 0 && isAggregate(src[0]) {
+			cp := make([]value, len(src))
+			for i := range src {
+				cp[i] = copyAggregate(src[i])
+			}
+			src = cp
+		}
+		return append(args[0].([]value), src...)
 
 	case "copy": // copy([]T, []T) int or copy([]byte, string) int
 		src := args[1]
@@ -1014,7 +1023,20 @@ func callBuiltin(caller *frame, callpos token.Pos, fn *ssa.Builtin, args []value
 			src = []value(ss)
 		}
 		raceWriteSlice(args[0].([]value))
-		return copy(args[0].([]value), src.([]value))
+		dst := args[0].([]value)
+		srcv := src.([]value)
+		if len(srcv) > 0 && len(dst) > 0 && isAggregate(srcv[0]) {
+			n := len(srcv)
+			if len(dst) < n {
+				n = len(dst)
+			}
+			tmp := make([]value, n)
+			for i := 0; i < n; i++ {
+				tmp[i] = copyAggregate(srcv[i])
+			}
+			return copy(dst, tmp)
+		}
+		return copy(dst, srcv)
 
 	case "close": // close(chan T)
 		chanClose(args[0].(*channel))
@@ -1143,6 +1165,33 @@ func callBuiltin(caller *frame, callpos token.Pos, fn *ssa.Builtin, args []value
 	}
 
 	panic("unknown built-in: " + fn.Name())
+}
+
+func isAggregate(v value) bool {
+	switch v.(type) {
+	case structure, array:
+		return true
+	}
+	return false
+}
+
+// copyAggregate copies a struct/array value (by-value semantics), sharing references.
+func copyAggregate(v value) value {
+	switch x := v.(type) {
+	case structure:
+		c := make(structure, len(x))
+		for i := range x {
+			c[i] = copyAggregate(x[i])
+		}
+		return c
+	case array:
+		c := make(array, len(x))
+		for i := range x {
+			c[i] = copyAggregate(x[i])
+		}
+		return c
+	}
+	return v
 }
 
 func rangeIter(x value, t types.Type) iter {
